@@ -13,6 +13,7 @@ META = {
         "synchronous step; R5 a targeted response links implicitly before its data; R6 a queued synced marker follows all queued data of the "
         "lane (drain loop); R7 the synced marker bookkeeping in Uplinks; R8 lane responses keep their target: SyncEvent -> Some(id), "
         "StandardEvent -> None; R9 the queued-flag discipline of the per-remote queue (shared with C01): a lane whose synced marker was popped is queued again by its next event. R12 (shared with C02.R11) a sync in progress cannot stall the lane: pop answers None only when nothing is queued."
+        ' R13 (= C02.R1b) the per-remote map queue a sync waits in keeps queue, index and head epoch together.'
 ),
     "does_not_decide": "the snapshot-consistency statement over all placements of sync requests and all interleavings",
 }
